@@ -11,6 +11,7 @@ import Driver.Fs
 import Driver.IO
 import Driver.Rm
 import Driver.Regex
+import Driver.Lock
 
 def dispatch (line : String) : String :=
   match (line.trimAscii.toString.splitOn " ").filter (· ≠ "") with
@@ -32,6 +33,7 @@ def dispatch (line : String) : String :=
   | "io" :: rest => Driver.IO.handle rest
   | "rm" :: rest => Driver.Rm.handle rest
   | "excl" :: rest => Driver.Regex.handle rest
+  | "lockev" :: rest => Driver.Lock.handle rest
   | _ => "bad-op"
 
 partial def loop (hin hout : IO.FS.Stream) : IO Unit := do
